@@ -394,6 +394,16 @@ func pItems(tier string) []proto.Item {
 			}
 		}
 	}
+	// SACK: the acknowledgement of the first probe that reached the destination is lost, the next probe is lost on its way,
+	// so the later acknowledgements carry two blocks with the lowest one LAST ([7,8) [5,6)): the list still ends at the
+	// lowest TTL the destination acknowledged
+	for _, v := range []string{"sack", "sackstrict"} {
+		for _, d := range []int{3, 5} {
+			s := proto.Scn{Variant: v, First: 1, Last: d + 3, Dest: d, IPIDBase: 300, EchoBase: 31, TimeoutMs: 300, DelayMs: 10}
+			s.Hops = map[int]proto.HopSpec{d: {LostReply: true}, d + 1: {Silent: true}}
+			items = append(items, proto.Item{Scn: s, Class: fmt.Sprintf("%s/first-acknowledgement-lost-then-a-gap/dest-%d", v, d), Note: map[string]string{"want_len": fmt.Sprint(d)}})
+		}
+	}
 	// UDP: the destination itself answers with a destination-unreachable that is not "port unreachable" (a host firewall
 	// rejecting with host / administratively prohibited): an ICMP error from the target proves arrival, the list ends there
 	for _, v := range proto.Variants {
